@@ -231,6 +231,37 @@ pub fn run(tier: Tier) -> i32 {
             }
         }
     }
+    // thorough: every three-bit pattern of the 72 body bits with the right identifier (59 640 per type)
+    if tier.is_thorough() {
+        let mut triples: Vec<[u8; 9]> = Vec::new();
+        for i in 0..72usize {
+            for j in (i + 1)..72 {
+                for k in (j + 1)..72 {
+                    let mut b = [0u8; 9];
+                    for x in [i, j, k] {
+                        b[x / 8] |= 1 << (x % 8);
+                    }
+                    triples.push(b);
+                }
+            }
+        }
+        for (wt, id) in [(Wt::Ihw, words::ID_IHW), (Wt::Tdh, words::ID_TDH), (Wt::Tdt, words::ID_TDT), (Wt::Ddw0, words::ID_DDW0)] {
+            let chunks: Vec<Vec<[u8; 9]>> = triples.chunks(4096).map(|c| c.to_vec()).collect();
+            let res = par_map(&chunks, |_, c| check_predicates(wt, &[id], c));
+            for (n, rej, first) in res {
+                evaluations += n;
+                rejected_total += rej;
+                if let Some((w, m, i)) = first {
+                    rep.violation(Violation {
+                        signature: format!("predicate:{}:{}", wt.name(), if m { "false-alarm" } else { "missed" }),
+                        description: format!("{} {}: documented rule says sane={m}, checker says sane={i}", wt.name(), hex(&w)),
+                        replay: json!({"kind": "predicate", "type": wt.name(), "word_hex": hex(&w)}),
+                    });
+                }
+            }
+        }
+        rep.cov("three_bit_patterns_per_type", json!(triples.len()));
+    }
     // TDH: all 2^13 combinations of trigger-type low bits 0..8 / internal / no-data / continuation / bit 15
     {
         let mut first = None;
